@@ -285,6 +285,10 @@ class PathCtx:
             quick = self.qf.check()
             self.qf.set("timeout", Z3_QUICK_MS)
             verdict, backend, detail = ("refuted", "z3", {"reachable": True}) if quick == z3.sat else self.run.prove(self, t)
+        elif f is False:
+            # constant False on a path with quantified facts: the obligation is `this path is unreachable`; if the small budget
+            # and cvc5 do not show that, the long budget will not either (and the native search decides what is reported)
+            verdict, backend, detail = self.run.prove(self, t, small_only=True)
         else:
             verdict, backend, detail = self.run.prove(self, t)
         if f is False and verdict == "unknown" and path_facts_qf:
@@ -487,7 +491,7 @@ class Run:
     def case_label(self):
         return ",".join("%s=%s" % kv for kv in sorted(self.case.items())) if self.case else "-"
 
-    def prove(self, ctx, t):
+    def prove(self, ctx, t, small_only=False):
         """pc => t ?   returns (verdict, backend, detail).
 
         Every obligation is decided in a FRESH solver under a deterministic resource limit (z3 rlimit), so that the verdict
@@ -547,6 +551,8 @@ class Run:
         self.solver_s += time.time() - t0
         if r3 == "unsat":
             return "proved", "cvc5", None
+        if small_only:
+            return "unknown", "z3+cvc5", {"z3": str(r2), "cvc5": r3, "budget": "small"}
         # 3. z3 again with the full budget
         t0 = time.time()
         s2, r2 = z3_fresh(Z3_OBL_RL)
